@@ -198,6 +198,22 @@ CLAIMED["C06"] = dict(
          "objects stored *inside* attrib dictionaries are out of scope; join's footprint is covered in C12 (sources untouched).",
 )
 
+CLAIMED["C15"] = dict(
+    text="Mixed level, stated per clause. Proved with symbolic values: bonds_with_atom / connected_atoms / n_bonds_with_atom / "
+         "bonded_valence (= sum of Bond.order over symbolic bond types) / lookup_bond agree with the bond list; _node_match is exactly "
+         "element compatibility (Unknown matches any) for an unconstrained pattern atom, _edge_match accepts every bond for an "
+         "unconstrained pattern bond; match passes (molecule, pattern) and both predicates to the matcher, inverts each mapping, and "
+         "get_substr_indices lists images in pattern-atom order. Exhaustive through the VC engine over every labelled graph on 4 atoms: "
+         "yield_bfsd/yield_bfs yield exactly the reachable atoms once each with true shortest distances in non-decreasing order (with and "
+         "without direction), is_bond_in_ring iff the bond is not a bridge. Bounded stand-in (NOT counted as proved): all graphs on <= 5 "
+         "atoms and brute-force induced-embedding search on the real code under CPython.",
+    ref="DESIGN.md section 3 C15, section 4",
+    category="proof",
+    note="No unbounded inductive proof of the BFS distance invariant (traversal clauses are bounded: 4 atoms via the VC engine, 5 atoms "
+         "via the stand-in that also runs in the quick tier); networkx GraphMatcher semantics assumed; _edge_match is stricter than plain "
+         "adjacency when the pattern bond carries a type/stereo/label (documented behaviour, outside the statement's notion).",
+)
+
 NOT_APPLICABLE = {
 }
 
